@@ -80,4 +80,10 @@ CHECKS = {
         "assumptions": ["the sandbox clock is not stepped during a run (harness instants and kernel timestamps are read from the same CLOCK_REALTIME)", "timing is measured, not controlled: a stall only widens the envelope"],
         "timeout_quick": 600, "timeout_thorough": 2400,
     },
+    "C09": {
+        "pkg": "c09", "shards": 8,
+        "rule": "exhaustive first-byte x length x trailing-kind grid and rapid-generated headers sent to the real IP listener over loopback, sentinel-delimited reply counting.",
+        "assumptions": ["replies on one socket pair are FIFO (same 4-tuple => same SO_REUSEPORT socket => same goroutine)", "loopback may drop datagrams under memory pressure: a sentinel is retried 6 times before the listener is declared unresponsive"],
+        "timeout_quick": 600, "timeout_thorough": 2400,
+    },
 }
